@@ -29,6 +29,7 @@ type EntryCfg struct {
 	TimeoutT string           `json:"timeout_thorough"`
 	Skip     string           `json:"skip_tier"` // "quick" or "thorough": entry not run in that tier
 	Replay   string           `json:"replay"`    // "native" (default), "engine" (schedule-dependent)
+	Samples  string           `json:"samples"`   // translator validation of passing paths: "strict" (single-threaded: observation logs must be identical), default lenient (multiset compare, differences are notes), "off"
 	Bounds   string           `json:"bounds"`
 	BoundsT  string           `json:"bounds_thorough"`
 	// optional per-entry overrides of the property-level settings (entries in another package)
@@ -59,6 +60,10 @@ type KnownFinding struct {
 	What      string `json:"what"`
 	Status    string `json:"status"` // "open" or "fixed"
 	Commit    string `json:"commit,omitempty"`
+	// Histories: when present, the finding only covers violations whose exact signature (entry, assertion
+	// label, collapsed sequence of environment-action kinds) is listed; any other history of the same class
+	// is reported as a new violation.
+	Histories []string `json:"histories,omitempty"`
 }
 
 type KnownFile struct {
@@ -109,6 +114,8 @@ type entryOutcome struct {
 	Confirmed  []*confirmedViolation
 	Unconfirmd []string
 	EndFeas    int
+	SamplesOK  int
+	SampleNotes []string
 }
 
 type confirmedViolation struct {
@@ -239,6 +246,10 @@ func checkMain(args []string) int {
 		}
 		return l, epc, ehdir
 	}
+	var dumpSigs map[string][]string
+	if os.Getenv("VERIF_DUMP_SIGS") != "" {
+		dumpSigs = map[string][]string{}
+	}
 	var outcomes []*entryOutcome
 	exit := 0
 	nViol := 0
@@ -263,7 +274,7 @@ func checkMain(args []string) int {
 			continue
 		}
 		e := newEngine(prog, pkg, []string{"z3", "-in"})
-		e.stopOnViol = 5000
+		e.stopOnViol = 1000000
 		e.extraNoop = epc.ExtraNoop
 		e.redirect = epc.Redirect
 		e.solverFresh = pc.SolverMode == "fresh" || pc.SolverMode == "int-fresh"
@@ -334,6 +345,15 @@ func checkMain(args []string) int {
 		// violations: dedupe by signature, replay, match against known findings
 		seen := map[string]bool{}
 		perClass := map[string]int{}
+		knownHist := map[string]*KnownFinding{}
+		for i := range known.Findings {
+			k := &known.Findings[i]
+			if k.Property == id && k.Status == "open" {
+				for _, h := range k.Histories {
+					knownHist[h] = k
+				}
+			}
+		}
 		for _, v := range res.Violations {
 			sig := signatureOf(id, ec.Name, v)
 			if seen[sig] {
@@ -341,9 +361,23 @@ func checkMain(args []string) int {
 			}
 			seen[sig] = true
 			cv := &confirmedViolation{V: v, Sig: sig, Class: classOf(id, v, pc.ClassActs)}
-			perClass[cv.Class]++
-			if perClass[cv.Class] > 2 {
-				continue // two replayed representatives per class are enough
+			if dumpSigs != nil {
+				dumpSigs[cv.Class] = append(dumpSigs[cv.Class], sig)
+			}
+			if k, ok := knownHist[sig]; ok {
+				// an exactly listed history of an open finding: replay only the first two per class
+				perClass[cv.Class]++
+				if perClass[cv.Class] > 2 {
+					cv.Known = k
+					cv.How = "listed history of a known finding (representatives of this class were replayed)"
+					oc.Confirmed = append(oc.Confirmed, cv)
+					continue
+				}
+			} else if len(knownHist) == 0 {
+				perClass[cv.Class]++
+				if perClass[cv.Class] > 2 {
+					continue // two replayed representatives per class are enough
+				}
 			}
 			rp, err := writeReplay(verif, id, fmt.Sprintf("%s-e%d", ec.Name, ei), v, len(oc.Confirmed)+len(oc.Unconfirmd), params)
 			if err != nil {
@@ -375,10 +409,63 @@ func checkMain(args []string) int {
 			for i := range known.Findings {
 				k := &known.Findings[i]
 				if k.Property == id && k.Status == "open" && (k.Signature == cv.Class || k.Signature == cv.Sig) {
+					if k.Histories != nil {
+						found := false
+						for _, h := range k.Histories {
+							if h == cv.Sig {
+								found = true
+							}
+						}
+						if !found {
+							continue
+						}
+					}
 					cv.Known = k
 				}
 			}
 			oc.Confirmed = append(oc.Confirmed, cv)
+		}
+		// translator validation: replay sampled *passing* paths natively and compare observations
+		if (ec.Replay == "" || ec.Replay == "native") && len(epc.Redirect) == 0 && os.Getenv("VERIF_NO_SAMPLES") == "" && ec.Samples != "off" {
+			for si, smp := range res.Samples {
+				if smp.Values == nil && smp.Nondets > 0 {
+					continue
+				}
+				sv := &Violation{Label: "sample", Msg: "passing path witness", Nondets: smp.Values, Decisions: smp.Decisions, Actions: smp.Actions, Observes: smp.Observes}
+				rp, err := writeReplay(verif, id, fmt.Sprintf("%s-e%d-sample", ec.Name, ei), sv, si, params)
+				if err != nil {
+					continue
+				}
+				out, errs := nativeRun(verif, repo, epc, ehdir, ec.Name, rp)
+				os.Remove(rp)
+				switch {
+				case errs != "":
+					oc.SampleNotes = append(oc.SampleNotes, "sample could not run natively: "+errs)
+				case strings.Contains(out, "VERIF-REPLAY-OK"):
+					nat := nativeObserves(out)
+					if ec.Samples == "strict" {
+						if sameObserves(nat, smp.Observes) {
+							oc.SamplesOK++
+						} else {
+							oc.Inconcl = append(oc.Inconcl, fmt.Sprintf("translator validation: native observations differ from the engine's on a passing path (engine %v, native %v)", smp.Observes, nat))
+						}
+					} else {
+						// concurrent harness: goroutine and map order are not forced natively; compare as multisets
+						a, b := append([]string{}, nat...), append([]string{}, smp.Observes...)
+						sort.Strings(a)
+						sort.Strings(b)
+						if sameObserves(a, b) {
+							oc.SamplesOK++
+						} else {
+							oc.SampleNotes = append(oc.SampleNotes, "passing path replayed natively without assertion failure; observation multiset differs (native scheduling not forced)")
+						}
+					}
+				case strings.Contains(out, "VERIF-ASSERT-FAILED"):
+					oc.Inconcl = append(oc.Inconcl, "translator validation: a path the engine proved fails natively: "+firstLine(out[strings.Index(out, "VERIF-ASSERT-FAILED"):]))
+				default:
+					oc.SampleNotes = append(oc.SampleNotes, "sample diverged natively (schedule- or order-dependent path)")
+				}
+			}
 		}
 		if len(oc.MissReach) > 0 && len(oc.Confirmed) == 0 {
 			oc.Inconcl = append(oc.Inconcl, "vacuity: markers not reached: "+strings.Join(oc.MissReach, ","))
@@ -410,6 +497,10 @@ func checkMain(args []string) int {
 			inconclusive = append(inconclusive, oc.Entry+": "+m)
 		}
 	}
+	if dumpSigs != nil {
+		b, _ := json.MarshalIndent(dumpSigs, "", " ")
+		os.WriteFile(os.Getenv("VERIF_DUMP_SIGS"), b, 0o644)
+	}
 	writeEvidence(verif, id, tier, seed, pc, outcomes, time.Since(t0), nViol, inconclusive)
 	if exit == 1 {
 		return 1
@@ -440,6 +531,28 @@ func hasPreemption(v *Violation) bool {
 		}
 	}
 	return false
+}
+
+func nativeObserves(out string) []string {
+	var res []string
+	for _, l := range strings.Split(out, "\n") {
+		if i := strings.Index(l, "VERIF-OBSERVE "); i >= 0 {
+			res = append(res, strings.TrimSpace(l[i+len("VERIF-OBSERVE "):]))
+		}
+	}
+	return res
+}
+
+func sameObserves(a, b []string) bool {
+	if len(a) != len(b) {
+		return false
+	}
+	for i := range a {
+		if a[i] != b[i] {
+			return false
+		}
+	}
+	return true
 }
 
 func firstLine(s string) string {
@@ -510,9 +623,19 @@ func writeReplay(verif, id, entry string, v *Violation, n int, params map[string
 // nativeReplay compiles the harness into the real package with the native
 // runtime and runs the recorded counterexample as an ordinary Go test.
 func nativeReplay(verif, repo string, pc PropCfg, hdir, entry, replayPath string) (bool, string) {
+	s, errs := nativeRun(verif, repo, pc, hdir, entry, replayPath)
+	if errs != "" {
+		return false, errs
+	}
+	return classifyNative(s)
+}
+
+// nativeRun compiles the harness into the real package with the native runtime and runs the
+// recorded inputs as an ordinary Go test; it returns the test output.
+func nativeRun(verif, repo string, pc PropCfg, hdir, entry, replayPath string) (string, string) {
 	tmp, err := os.MkdirTemp("", "gosx-replay-")
 	if err != nil {
-		return false, err.Error()
+		return "", err.Error()
 	}
 	defer os.RemoveAll(tmp)
 	pkgDir := filepath.Join(repo, pc.Pkg)
@@ -525,12 +648,12 @@ func nativeReplay(verif, repo string, pc PropCfg, hdir, entry, replayPath string
 	}
 	pkgName, err := packageNameOf(paths)
 	if err != nil {
-		return false, err.Error()
+		return "", err.Error()
 	}
 	if pc.Generator == "c18" {
 		src, _, gerr := genC18(repo, 20000)
 		if gerr != nil {
-			return false, gerr.Error()
+			return "", gerr.Error()
 		}
 		gp := filepath.Join(tmp, "c18gen_test.go")
 		os.WriteFile(gp, src, 0o644)
@@ -538,7 +661,7 @@ func nativeReplay(verif, repo string, pc PropCfg, hdir, entry, replayPath string
 	}
 	rt, err := os.ReadFile(filepath.Join(filepath.Dir(hdir), "rt", "rt_native.go.txt"))
 	if err != nil {
-		return false, err.Error()
+		return "", err.Error()
 	}
 	rtPath := filepath.Join(tmp, "rt_native_test.go")
 	os.WriteFile(rtPath, []byte(strings.Replace(string(rt), "package PKG", "package "+pkgName, 1)), 0o644)
@@ -593,11 +716,15 @@ func nativeReplay(verif, repo string, pc PropCfg, hdir, entry, replayPath string
 	cmd := exec.Command("go", "test", "-vet=off", "-count=1", "-timeout", "120s", "-overlay", ovPath, "-run", "^TestVerifReplay$", "-v", pc.Pkg)
 	cmd.Dir = repo
 	cmd.Env = append(os.Environ(), "VERIF_REPLAY="+replayPath, "GOFLAGS=-mod=mod", "GOPROXY=off", "GOTOOLCHAIN=local")
-	out, err := cmd.CombinedOutput()
+	out, _ := cmd.CombinedOutput()
 	s := string(out)
 	if os.Getenv("VERIF_DEBUG") != "" {
 		fmt.Fprintln(os.Stderr, s)
 	}
+	return s, ""
+}
+
+func classifyNative(s string) (bool, string) {
 	switch {
 	case strings.Contains(s, "VERIF-ASSERT-FAILED"):
 		l := ""
@@ -648,7 +775,7 @@ func engineReplay(e *Engine, fn *ssa.Function, v *Violation) (bool, string) {
 	if ex.violation.Label != v.Label {
 		return false, "engine re-execution reached a different violation: " + ex.violation.Label
 	}
-	return true, "engine-confirmed only: schedule-dependent counterexample re-executed in the engine with all decisions fixed (native forced-yield replay did not reproduce it)"
+	return true, "engine-confirmed only: counterexample re-executed in the engine with all decisions and values fixed (not linkable natively: entry uses redirect stubs, or the schedule could not be forced)"
 }
 
 func replayMain(verif, repo, id string, pc PropCfg, hdir, file string) int {
@@ -686,6 +813,7 @@ func writeEvidence(verif, id, tier string, seed int, pc PropCfg, outs []*entryOu
 	var entries []interface{}
 	validated := 0
 	known := 0
+	var sampleNotes []string
 	for _, oc := range outs {
 		r := oc.Res
 		paths += r.Paths
@@ -710,6 +838,10 @@ func writeEvidence(verif, id, tier string, seed int, pc PropCfg, outs []*entryOu
 				samples = append(samples, map[string]interface{}{"entry": oc.Entry, "path": s})
 			}
 		}
+		validated += oc.SamplesOK
+		for _, n := range oc.SampleNotes {
+			sampleNotes = append(sampleNotes, oc.Entry+": "+n)
+		}
 		for _, cv := range oc.Confirmed {
 			validated++
 			if cv.Known != nil {
@@ -724,6 +856,7 @@ func writeEvidence(verif, id, tier string, seed int, pc PropCfg, outs []*entryOu
 			"max_decision_depth": r.MaxDepth, "ssa_instructions_executed": r.Steps, "assertions_evaluated": r.Asserts,
 			"solver_queries": r.Queries, "solver_time_s": r.SolverTime.Seconds(), "wall_s": oc.Wall.Seconds(),
 			"engine_config": r.Cfg, "violations_found": len(r.Violations), "confirmed": len(oc.Confirmed), "unconfirmed": oc.Unconfirmd,
+			"passing_paths_replayed_natively_with_equal_observations": oc.SamplesOK,
 		})
 	}
 	if states == 0 {
@@ -749,6 +882,7 @@ func writeEvidence(verif, id, tier string, seed int, pc PropCfg, outs []*entryOu
 	cov["entries"] = entries
 	cov["solver"] = "z3 4.8.12 (/usr/bin/z3 -in), one process per worker, push/pop"
 	cov["known_findings_matched"] = known
+	cov["translator_validation_notes"] = sampleNotes
 	cov["inconclusive"] = inconclusive
 	cov["outside_the_claim"] = pc.Outside
 	cov["exhaustive"] = len(inconclusive) == 0
